@@ -13,12 +13,22 @@ from vf.vsim.parse import Unsupported, VhdlError
 _cache = {}
 
 
-def compile_design(src, entity="E", cache_key=None):
-    """-> elaborated design (cached per worker by cache_key: compilation of std wrappers is the expensive part)"""
+def compile_design(src, entity="E", cache_key=None, alias_persistent=False):
+    """-> elaborated design (cached per worker by cache_key: compilation of std wrappers is the expensive part).
+    alias_persistent: treat the compiler's alias variables of locally constructed signals as ordinary persistent VHDL
+    variables (plain VHDL semantics) instead of activation-local intermediates; used where a design deliberately keeps
+    such a value across states (maybe_uninitialized=True) -- the C08 side of that is probed in the C08 check itself"""
     if cache_key is not None and cache_key in _cache:
         return _cache[cache_key]
     text, lib = render.compile_source(src, entity, sidecar=True)
     tn = render.temp_classifier(lib)
+    if alias_persistent and tn is not None:
+        inner = tn
+
+        def tn(entity_, label, name):  # noqa: F811
+            if name.lower().startswith("alias"):
+                return False
+            return inner(entity_, label, name)
     design = elab.elaborate_text(text, temp_names=tn)
     design.vhdl_text = text
     if cache_key is not None:
